@@ -80,6 +80,10 @@ def discrete_stage(st, tier, seed, binary, tag, ncases=None, extra_cases=None, g
         cases += gen.read_cases(corpus_path)
     if extra_cases:
         cases += extra_cases
+    if tier == 'thorough' and st in gen.EXHAUSTIVE:
+        ex = gen.EXHAUSTIVE[st]()
+        cases += ex
+        sg.dist['exhaustive_small_histories'] = len(ex)
     cases += (genfn or gen.GEN[st])(rng, n)
     src = {c[0].split()[1]: c for c in cases}
     os.makedirs(build.BUILD, exist_ok=True)
